@@ -15,6 +15,7 @@ WEIGHTS = {'create': 16, 'iter': 8, 'intoThin': 12, 'conv': 18, 'cb': 20, 'clone
 def run(ctx):
     histcheck.run(ctx, MODULE, WEIGHTS, TAGS, lean_extra=EXTRA,
                   release_quick_filter=lambda h: any(op.split()[0] in ('iter', 'intoThin', 'cb') for op in h))
+    zst_length_pass(ctx)
     # conversions and borrows under a concurrent observer of the count
     from vlib import miri
     miri.observer_pass(ctx, "C10")
@@ -32,6 +33,46 @@ def run(ctx):
             ctx.violation("shape", body, True)
         else:
             ctx.defer_nfi(body)
+
+
+def zst_length_pass(ctx):
+    """slices of ZERO-SIZED elements at lengths up to usize::MAX (byte size 0): every view reports the recorded length
+    (the model's `viewLen`, generic in the length: Props/C10.lean), in the dev and the release profile"""
+    from vlib import common
+    lens = [0, 1, 3, 2 ** 31, 2 ** 32 + 1, 2 ** 62, 2 ** 63 - 2, 2 ** 63 - 1, 2 ** 63, 2 ** 63 + 1, 2 ** 64 - 2, 2 ** 64 - 1]
+    cases = [("tz", c, n) for c in ("unit", "z16", "zd") for n in lens]
+    text = "".join("%s %s %d\n" % c for c in cases)
+    bad, ran = [], 0
+    for rel in (False, True):
+        exe, out = common.cargo_build_bin(ctx, "thinzst", release=rel)
+        if exe is None:
+            ctx.oblige("corr:thin-zst-lengths-build", False, out[-1500:])
+            ctx.defer_nfi("the zero-sized-element ThinArc harness does not build against this tree:\n" + out[-2500:])
+            return
+        rc, so, se = common.sh2([exe], stdin=text, timeout=120)
+        lines = so.splitlines()
+        for i, c in enumerate(cases):
+            l = lines[i] if i < len(lines) else "st=crash(rc=%s)" % rc
+            ran += 1
+            kv = dict(x.split("=", 1) for x in l.split() if "=" in x)
+            want = str(c[2])
+            views = ["fat0_len", "thin_len", "hdr_len", "with_arc_len", "fat_len", "back_len"]
+            # the constructor may refuse up front with a panic (C06), but a handle that exists must agree with itself
+            if kv.get("st") == "ok":
+                wrong = [v for v in views if kv.get(v) != want]
+                if wrong or kv.get("hdr") != "77" or kv.get("cnt") != "2":
+                    bad.append((c, "release" if rel else "dev", l, "views that do not report the recorded length %s: %s" % (want, ", ".join(wrong) or "-")))
+            elif not kv.get("st", "").startswith("panic"):
+                bad.append((c, "release" if rel else "dev", l, "the harness died / printed garbage"))
+    ctx.coverage["thin_zst_lengths"] = {"cases": ran, "lengths": [str(x) for x in lens], "element_classes": ["()", "zero-sized align 16", "zero-sized with Drop"]}
+    ctx.coverage["evaluations"] = ctx.coverage.get("evaluations", 0) + ran
+    ctx.oblige("corr:thin-zst-lengths", not bad, "%d failing" % len(bad))
+    if bad:
+        body = ["ThinArc over zero-sized elements: a view of the allocation does not report the recorded length", ""]
+        for c, prof, l, why in bad[:6]:
+            body.append("case: %s %s %d   [%s profile]\n  observed: %s\n  %s\n  model: every view has length %d (viewLen = recorded length)" % (c[0], c[1], c[2], prof, l, why, c[2]))
+        body.append("\nreplay: printf 'tz <class> <len>\\n' | <harness bin thinzst>")
+        ctx.violation("shape", "\n".join(body), True)
 
 
 def replay(ctx, path):
